@@ -215,7 +215,7 @@ def run(ctx):
             # THDM Higgs masses: "a mass equal to ... the SM Higgs mass" is reached from either side
             for mi, mov in ((0, "mh"), (1, "mH"), (2, "mA"), (3, "mHp"), (10, "mhSM")):
                 for lab, m0 in sorted(targets(masses, TH_MASS, mov, rich).items()):
-                    if not (10.0 <= m0 <= 1e4):
+                    if not (1.0 <= m0 <= 1e4):      # down to the light fermion masses of the point (m_tau, m_b): 'two masses equal'
                         continue
                     if mov == "mh" and m0 * 1.001 > TH_BASE[b][1]:
                         continue
@@ -226,7 +226,7 @@ def run(ctx):
                             p = list(TH_BASE[b]) + [t, 125.09, r]; p[mi] = m0 * (1 + d)
                             cid = "t%d" % len(cases)
                             cases.append((cid, "T", p))
-                            meta[cid] = (b, t, r, mov, lab, d)
+                            meta[cid] = (b, t, r, mov, lab + ("~light" if m0 < 10.0 else ""), d)
     res = evaluate(exe, cases)
     ncases += len(cases)
     groups = {}
@@ -364,14 +364,14 @@ def run(ctx):
 
     # ------------------------------------------------------------------ signature-refined lines
     lines = []
-    lat = [10.0 ** (j / 8.0) for j in range(8, 33)]          # 10 .. 1e4 GeV
+    lat = [10.0 ** (j / 8.0) for j in range(0, 33)]          # 1 .. 1e4 GeV
     for b in bases:
         for t in ([2] if ctx.quick else [2, 5, 6]):
             for mi, mov in ((0, "mh"), (1, "mH"), (2, "mA"), (3, "mHp"), (10, "mhSM")):
                 # the coincidence targets themselves are seeds of the line: a guard window around a target is an
                 # island between two lattice points with equal signatures, which bisection alone never enters
                 tgl = targets([TH_BASE[b][0], TH_BASE[b][1], TH_BASE[b][2], TH_BASE[b][3]] + th_sm_masses, TH_MASS, mov, True)
-                ts = sorted(set(lat) | {v for v in tgl.values() if 10.0 <= v <= 1e4})
+                ts = sorted(set(lat) | {v for v in tgl.values() if 1.0 <= v <= 1e4})
                 ts = [x for x in ts if not (mov == "mh" and x > TH_BASE[b][1]) and not (mov == "mH" and x < TH_BASE[b][0])]
                 lines.append(("LT", "L%s%d%s" % (b, t, mov), mi, TH_BASE[b] + [t, 125.09, 1], ts, ("THDM", b, t, mov)))
     for b in mbases:
@@ -441,7 +441,7 @@ def run(ctx):
                 va, vb = pts.get(a), pts.get(bb)
                 if va is None or vb is None:
                     continue
-                where = location(a) or "at~%.5g" % a
+                where = (location(a) or "at~%.5g" % a) + ("~light" if model == "THDM" and abs(a) < 10.0 else "")
                 if model == "THDM" and location(a):
                     m0w = tg[location(a)]
                     edge = a if abs(a - m0w) >= abs(bb - m0w) else bb
